@@ -26,7 +26,8 @@ LEVEL_TEXT = ("Establishment outcomes x per-request answer modes x relative orde
               "an announced endpoint, every request must get exactly one terminal message with its id, event-stream messages "
               "must arrive once, in order and identically under every chunking, and after every exit path - including a "
               "cancellation delivered at each loop iteration the fault-free run took - no task, HTTP client or stream may remain."
-              " Also 100-400 server messages in one read, and a second healthy SSE connection using the same request ids in the same process.")
+              " Also 100-400 server messages in one read, and a second healthy SSE connection using the same request ids in the same process."
+              ' Also events without an `event:` line carrying endpoint-looking text, a server request reusing a pending id, JSON bodies that are not JSON-RPC, non-object results.')
 LEVEL_NOTE = ("Trusted: httpx.MockTransport + TimedByteStream behave like a server (chunks at chosen virtual times); "
               "asyncio.all_tasks() and AsyncClient.is_closed as the leak oracle. Event stream uses the canonical "
               "'event: message / data: ...' encoding (encodings are C11's subject).")
